@@ -168,7 +168,8 @@ def p4(ctx, ss):
     tree = ss.tree(ENUMS)
     names = None
     for st in tree.body:
-        if isinstance(st, ast.Assign) and any(isinstance(t, ast.Name) and t.id == "known_decay_models" for t in st.targets):
+        if (isinstance(st, ast.Assign) and any(isinstance(t, ast.Name) and t.id == "known_decay_models" for t in st.targets)) or \
+                (isinstance(st, ast.AnnAssign) and isinstance(st.target, ast.Name) and st.target.id == "known_decay_models" and st.value is not None):
             names = ast.literal_eval(st.value)
     if names is None:
         raise AnchorMissing("known_decay_models literal not found")
